@@ -1313,6 +1313,7 @@ def ph_setup(eng):
 
 
 _TWIN = {}
+_PCASES = []
 
 
 MIDDLES = ['get', 'get_attributes', 'modify', 'activate']
@@ -1346,11 +1347,12 @@ def run_placeholder_batch(ctx, w, workdir):
     if tkey in _TWIN:               # the twin depends only on the creating operation, its object type and the version
         obs['twin'] = _TWIN[tkey]
     for which in ('twin', 'main'):
-        if which in obs:
+        if which in obs or (which == 'main' and w.get('twin_only')):
             continue
         eng = fresh_engine(workdir)
         try:
             ph_setup(eng)
+            o0, _ = observe(eng)
             items = ([creator_item(w['creator'], w.get('otype', 'SYMMETRIC_KEY'))] + ([middle_item(mid, ver)] if mid else [])
                      + ([build_item(st)] if which == 'main' else []))
             r = eng.request(items, version=ver, user='alice')
@@ -1366,14 +1368,32 @@ def run_placeholder_batch(ctx, w, workdir):
             eng.restart()
             d2 = eng.dump()
             o2, _ = observe(eng, d2)
-            obs[which] = {'target': target, 'res': res, 'after': o1, 'reload': o2, 'prot': protected_from_dump(d1), 'prot2': protected_from_dump(d2)}
+            obs[which] = {'before': o0, 'target': target, 'res': res, 'after': o1, 'reload': o2, 'prot': protected_from_dump(d1), 'prot2': protected_from_dump(d2)}
         finally:
             eng.close()
     _TWIN[tkey] = obs['twin']
+    if w.get('twin_only'):
+        return None
     t, m = obs['twin'], obs['main']
     if len(m['res']) != (3 if mid else 2):
         raise RuntimeError('placeholder batch answered %d items' % len(m['res']))
     okk = m['res'][-1] == 'SUCCESS'
+    # K: the same batch for the model (Coq replays it from placeholder None).  The creating / middle items are given by the
+    # stores the twin engines observed after them; the attribute item by its request and observed outcome.
+    if ctx is not None and w.get('collect', True):
+        after_creator = t['after']
+        if mid:
+            k0 = tkey[:3] + (None,)
+            if k0 not in _TWIN:
+                run_placeholder_batch(None, dict(w, middle=None, collect=False, twin_only=True), workdir)
+            after_creator = _TWIN[k0]['after']
+        kitems = ['(KICreate %s %s)' % (coq_store(after_creator), cp.z(int(t['target'])))]
+        if mid:
+            kitems.append('(KIOther %s)' % coq_store(t['after']))
+        kitems.append('(KIAttr None %s %s)' % (coq_req(st), cp.string('' if okk else m['res'][-1])))
+        _PCASES.append(('(mkP (%s, %s) %s false %s %s %s)' % (
+            cp.z(ver[0]), cp.z(ver[1]), cp.string('alice'), coq_store(m['before']), cp.lst(kitems, lambda x: x), coq_store(m['after'])),
+            dict(w, results=m['res'])))
     wit = dict(w, results=m['res'], placeholder_object=m['target'], without_attribute_item=t['after'],
                after_batch=m['after'], after_reload=m['reload'])
     want = [dict(o) for o in t['after']]
@@ -1586,7 +1606,13 @@ def run(ctx):
                         ctx.count('length.%s.%s.%s' % (field, form, 'SUCCESS' if res == 'SUCCESS' else 'failed'))
                         ctx.case_seen(('length', field, form, charset, t, L, res), nontrivial=True)
     ctx.log('length oracle: %d ModifyAttribute steps over %r characters (ASCII and multi-byte), same values at creation' % (nl, LENGTHS))
+    del _PCASES[:]
     np_ = placeholder_batch_oracle(ctx, work)
+    badp = ctx.run_cases('placeholder', HEADER, [c for c, _ in _PCASES], 'check_pcase', shard=40,
+                         what='run of a batch [creating item; other item; attribute item without identifier] on the model '
+                              '(placeholder semantics) vs the real engine: outcome + store after the batch')
+    for i in badp[:10]:
+        ctx.disagreement('placeholder', _PCASES[i][1])
     ctx.log('placeholder oracle: %d batches [Create | Register | CreateKeyPair | DeriveKey ; attribute operation without identifier]' % np_)
     nb = boundary_batch_oracle(ctx, work)
     ctx.log('boundary batch oracle: %d two-item batches (Continue and Stop), judged after the batch and after a reload' % nb)
